@@ -141,8 +141,11 @@ class Runner:
             raise RuntimeError("cannot seed the typeshed cache: " + out + err)
         self.n = 0
 
-    def run(self, cwd: str, flags: list, args: list) -> tuple:
+    def run(self, cwd: str, flags: list, args: list, env: dict | None = None) -> tuple:
         self.n += 1
+        old_mp = os.environ.pop("MYPYPATH", None)
+        if env and env.get("MYPYPATH"):
+            os.environ["MYPYPATH"] = env["MYPYPATH"]
         cache = os.path.join(self.scratch, "cache-%d" % (self.n % 4))
         if os.path.isdir(cache):
             shutil.rmtree(cache)
@@ -158,6 +161,9 @@ class Runner:
             out, err, rc = "", "CRASH %s: %s" % (type(e).__name__, str(e)[:200]), 3
         finally:
             os.chdir(old)
+            os.environ.pop("MYPYPATH", None)
+            if old_mp is not None:
+                os.environ["MYPYPATH"] = old_mp
         return out, err, rc
 
 
